@@ -135,6 +135,114 @@ macro_rules! paste_mod {
 
 include!("../flows_table.rs");
 
+// ---------------------------------------------------------------- network links (two locations)
+use dfir_rs::bytes::{Bytes, BytesMut};
+
+fn dec_u32(b: &[u8]) -> u32 {
+    // bincode (fixed-width little endian) of a u32
+    u32::from_le_bytes([b[0], b[1], b[2], b[3]])
+}
+
+/// case {"flow":"n_o2o","ticks":[{"a":[..]},..] (sender ticks),"deliver":[k0,k1,..]}: all sender ticks
+/// run first (messages kept in order), then receiver tick i gets the next k_i messages (FIFO link
+/// with arbitrary delay and re-batching).  result: per sender tick the decoded messages it sent,
+/// per receiver tick the outputs.
+fn n_o2o(case: &Value) -> Value {
+    let ticks = case["ticks"].as_array().expect("ticks");
+    let sent: Rc<RefCell<Vec<Bytes>>> = Rc::new(RefCell::new(Vec::new()));
+    let a: Rc<RefCell<VecDeque<u32>>> = Rc::new(RefCell::new(VecDeque::new()));
+    let mut sent_ticks: Vec<Value> = Vec::new();
+    {
+        let mut net_out = generated::n_o2o::n_o2o_sender::EmbeddedNetworkOut {
+            link: { let sent = sent.clone(); move |b: Bytes| sent.borrow_mut().push(b) },
+        };
+        let mut df = generated::n_o2o::n_o2o_sender(QS(a.clone()), &mut net_out);
+        let mut seen = 0usize;
+        for t in ticks {
+            if let Some(items) = t.get("a").and_then(|x| x.as_array()) {
+                for it in items { a.borrow_mut().push_back(u32::from_j(it)); }
+            }
+            df.run_tick_sync();
+            let all = sent.borrow();
+            sent_ticks.push(Value::Array(all[seen..].iter().map(|b| json!(dec_u32(b))).collect()));
+            seen = all.len();
+        }
+    }
+    let q: Rc<RefCell<VecDeque<Result<BytesMut, std::io::Error>>>> = Rc::new(RefCell::new(VecDeque::new()));
+    let out: Rc<RefCell<Vec<Value>>> = Rc::new(RefCell::new(Vec::new()));
+    let mut outputs = generated::n_o2o::n_o2o_receiver::EmbeddedOutputs {
+        out: { let out = out.clone(); move |x: (usize, u32)| out.borrow_mut().push(x.to_j()) },
+    };
+    let net_in = generated::n_o2o::n_o2o_receiver::EmbeddedNetworkIn { link: QS(q.clone()) };
+    let mut df = generated::n_o2o::n_o2o_receiver(&mut outputs, net_in);
+    let mut msgs: VecDeque<Bytes> = sent.borrow().iter().cloned().collect();
+    let mut res: Vec<Value> = Vec::new();
+    for k in case["deliver"].as_array().expect("deliver") {
+        for _ in 0..k.as_u64().unwrap_or(0) {
+            if let Some(b) = msgs.pop_front() { q.borrow_mut().push_back(Ok(BytesMut::from(b.as_ref()))); }
+        }
+        df.run_tick_sync();
+        let mut m = serde_json::Map::new();
+        m.insert("out".to_owned(), Value::Array(std::mem::take(&mut *out.borrow_mut())));
+        res.push(Value::Object(m));
+    }
+    drop(df);
+    json!({"sent_ticks": sent_ticks, "undelivered": msgs.len(), "ticks": res})
+}
+
+/// case {"flow":"n_m2o","members":[[..],[..]] (input of member i, one sender tick each),
+/// "deliver":[[m,m,..],..]}: receiver tick i gets, in this order, the next message of each listed
+/// member (per-sender FIFO, arbitrary cross-sender interleaving).
+fn n_m2o(case: &Value) -> Value {
+    use hydro_lang::location::member_id::TaglessMemberId;
+    let members = case["members"].as_array().expect("members");
+    let mut queues: Vec<VecDeque<Bytes>> = Vec::new();
+    let mut sent_members: Vec<Value> = Vec::new();
+    for (i, items) in members.iter().enumerate() {
+        let id = TaglessMemberId::from_raw_id(i as u32);
+        let sent: Rc<RefCell<Vec<Bytes>>> = Rc::new(RefCell::new(Vec::new()));
+        let a: Rc<RefCell<VecDeque<u32>>> = Rc::new(RefCell::new(VecDeque::new()));
+        {
+            let mut net_out = generated::n_m2o::n_m2o_sender::EmbeddedNetworkOut {
+                mlink: { let sent = sent.clone(); move |b: Bytes| sent.borrow_mut().push(b) },
+            };
+            let mut df = generated::n_m2o::n_m2o_sender(&id, QS(a.clone()), &mut net_out);
+            // the member's input cut into two sender ticks (first half / second half)
+            let items = items.as_array().expect("member items");
+            let h = items.len() / 2;
+            for part in [&items[..h], &items[h..]] {
+                for it in part { a.borrow_mut().push_back(u32::from_j(it)); }
+                df.run_tick_sync();
+            }
+        }
+        sent_members.push(Value::Array(sent.borrow().iter().map(|b| json!(dec_u32(b))).collect()));
+        queues.push(sent.borrow().iter().cloned().collect());
+    }
+    let q: Rc<RefCell<VecDeque<Result<(TaglessMemberId, BytesMut), std::io::Error>>>> =
+        Rc::new(RefCell::new(VecDeque::new()));
+    let out: Rc<RefCell<Vec<Value>>> = Rc::new(RefCell::new(Vec::new()));
+    let mut outputs = generated::n_m2o::n_m2o_receiver::EmbeddedOutputs {
+        out: { let out = out.clone(); move |x: (u32, u32)| out.borrow_mut().push(x.to_j()) },
+    };
+    let net_in = generated::n_m2o::n_m2o_receiver::EmbeddedNetworkIn { mlink: QS(q.clone()) };
+    let mut df = generated::n_m2o::n_m2o_receiver(&mut outputs, net_in);
+    let mut res: Vec<Value> = Vec::new();
+    for tick in case["deliver"].as_array().expect("deliver") {
+        for m in tick.as_array().expect("deliver tick") {
+            let i = m.as_u64().unwrap() as usize;
+            if let Some(b) = queues[i].pop_front() {
+                q.borrow_mut().push_back(Ok((TaglessMemberId::from_raw_id(i as u32), BytesMut::from(b.as_ref()))));
+            }
+        }
+        df.run_tick_sync();
+        let mut mm = serde_json::Map::new();
+        mm.insert("out".to_owned(), Value::Array(std::mem::take(&mut *out.borrow_mut())));
+        res.push(Value::Object(mm));
+    }
+    drop(df);
+    json!({"sent_members": sent_members, "ticks": res})
+}
+
 fn run(case: &Value) -> Value {
     if case.get("k").and_then(|k| k.as_str()) == Some("ir") {
         let f = case.get("flow").and_then(|f| f.as_str()).unwrap_or("");
@@ -157,6 +265,12 @@ fn run(case: &Value) -> Value {
         return json!({"syntax": m, "flows": FLOWS});
     }
     let flow = case["flow"].as_str().expect("flow");
+    if flow == "n_o2o" {
+        return n_o2o(case);
+    }
+    if flow == "n_m2o" {
+        return n_m2o(case);
+    }
     let ticks = case["ticks"].as_array().expect("ticks");
     dispatch(flow, ticks)
 }
